@@ -45,6 +45,23 @@ func NewMessage(typeCode uint8) (msg Message, err error) {
 	return
 }
 
+// readBytes reads exactly n bytes. In contrast to allocating a buffer of the announced size up
+// front, memory is only allocated for data which has really arrived. The announced length is
+// controlled by the peer.
+func readBytes(r io.Reader, n uint64) ([]byte, error) {
+	if n > 1<<62 {
+		return nil, fmt.Errorf("announced length of %d bytes is too large", n)
+	}
+
+	var buf bytes.Buffer
+	if _, err := io.CopyN(&buf, r, int64(n)); err == io.EOF {
+		return nil, io.ErrUnexpectedEOF
+	} else if err != nil {
+		return nil, err
+	}
+	return buf.Bytes(), nil
+}
+
 // ReadMessage parses the next TCPCLv4 message from the Reader.
 func ReadMessage(r io.Reader) (msg Message, err error) {
 	msgTypeBytes := make([]byte, 1)
